@@ -620,3 +620,73 @@ def check_unwrapped_callee_kinds(ctx, prog, flows, rid, prefixes, consequence):
                     "%s unwraps the result of %s, which can now also fail with %s (reviewed for %s only): " % (root, callee, extra, e["kinds"]) + consequence, s.site())
     ctx.counters["unwrapped_crate_calls_not_in_table"] = sorted(set(new_keys))
     return n
+
+
+# ------------------------------------------------------------------ a guard as a function of a count
+
+
+def eval_over_count(fl, d, n, is_count, depth=0):
+    """value of a description tree when the count expression (`is_count(desc)` is true for it) equals n; handles the
+    integer / float arithmetic and comparisons a guard on a node count is written with, named locals are replaced
+    by their definitions.  Returns an int / float / bool, or None when the tree contains anything else."""
+    import panic
+    import re
+
+    if depth > 12 or not isinstance(d, tuple):
+        return None
+    if is_count(d):
+        return n
+    k = d[0]
+    if k == "const":
+        m = re.match(r"const (-?\d+)_[iu](?:8|16|32|64|128|size)$", d[1])
+        if m:
+            return int(m.group(1))
+        m = re.match(r"const (-?\d+(?:\.\d+)?(?:e-?\d+)?)_?f(?:32|64)$", d[1])
+        if m:
+            return float(m.group(1))
+        if d[1] in ("const true", "const false"):
+            return d[1].endswith("true")
+        return None
+    if k in ("place", "tmp") and (k == "tmp" or "." not in d[1]):
+        v = value_of_named(fl, d[1])
+        if v is None:
+            return None
+        return eval_over_count(fl, panic.norm(v), n, is_count, depth + 1)
+    if k == "unop":
+        x = eval_over_count(fl, d[2], n, is_count, depth + 1)
+        if x is None:
+            return None
+        if d[1] == "Not" and isinstance(x, bool):
+            return not x
+        if d[1] == "Neg":
+            return -x
+        return None
+    if k == "binop":
+        x = eval_over_count(fl, d[2], n, is_count, depth + 1)
+        y = eval_over_count(fl, d[3], n, is_count, depth + 1)
+        if x is None or y is None:
+            return None
+        op = d[1].replace("WithOverflow", "").replace("Unchecked", "")
+        try:
+            return {"Add": lambda: x + y, "Sub": lambda: x - y, "Mul": lambda: x * y, "Lt": lambda: x < y, "Le": lambda: x <= y, "Gt": lambda: x > y, "Ge": lambda: x >= y, "Eq": lambda: x == y, "Ne": lambda: x != y, "BitAnd": lambda: x and y, "BitOr": lambda: x or y}[op]()
+        except KeyError:
+            return None
+    if k == "call":
+        nm = d[1].split("::")[-1]
+        args = [eval_over_count(fl, a, n, is_count, depth + 1) for a in d[2]]
+        if nm in ("saturating_sub",) and len(args) == 2 and None not in args:
+            return max(args[0] - args[1], 0)
+        if nm in ("saturating_add", "wrapping_add") and len(args) == 2 and None not in args:
+            return args[0] + args[1]
+        if nm in ("checked_sub",):
+            return None
+        if nm in ("max", "min") and len(args) == 2 and None not in args:
+            return max(args) if nm == "max" else min(args)
+        if nm in ("eq", "ne", "lt", "le", "gt", "ge") and len(args) == 2 and None not in args:
+            return {"eq": args[0] == args[1], "ne": args[0] != args[1], "lt": args[0] < args[1], "le": args[0] <= args[1], "gt": args[0] > args[1], "ge": args[0] >= args[1]}[nm]
+        if nm in ("is_empty",) and d[2] and is_count(("call", "len", d[2])):
+            return n == 0
+        return None
+    if k == "cast" and len(d) > 1:
+        return eval_over_count(fl, d[1], n, is_count, depth + 1)
+    return None
